@@ -289,8 +289,8 @@ func ruleB5(p *Prog) *RuleResult {
 							for _, r3 := range *add.Referrers() {
 								if st, ok := r3.(*ssa.Store); ok {
 									if fa, ok := st.Addr.(*ssa.FieldAddr); ok && fa.X == recv {
-										stt := fa.X.Type().Underlying().(*types.Pointer).Elem().Underlying().(*types.Struct)
-										if stt.Field(fa.Field).Name() == "readBytes" {
+										// the byte counter: the field that the adapter's GetReadBytes reports (by role, not by name)
+										if fa.Field == readCounterField(p, f) {
 											counted = true
 										}
 									}
@@ -349,3 +349,35 @@ func ruleB5(p *Prog) *RuleResult {
 }
 
 func constantInt(n int64) constant.Value { return constant.MakeInt64(n) }
+
+// readCounterField: the field of f's receiver type that its GetReadBytes method returns (-1 if none).
+func readCounterField(p *Prog, f *ssa.Function) int {
+	if f.Signature.Recv() == nil {
+		return -1
+	}
+	for _, g := range p.sourceFns() {
+		if g.Name() != "GetReadBytes" || g.Signature.Recv() == nil || g.Blocks == nil || !types.Identical(g.Signature.Recv().Type(), f.Signature.Recv().Type()) {
+			continue
+		}
+		for _, b := range g.Blocks {
+			ret, ok := b.Instrs[len(b.Instrs)-1].(*ssa.Return)
+			if !ok || len(ret.Results) != 1 {
+				continue
+			}
+			v := ret.Results[0]
+			for {
+				if cv, ok := v.(*ssa.Convert); ok {
+					v = cv.X
+					continue
+				}
+				break
+			}
+			if ld, ok := v.(*ssa.UnOp); ok {
+				if fa, ok := ld.X.(*ssa.FieldAddr); ok && fa.X == ssa.Value(g.Params[0]) {
+					return fa.Field
+				}
+			}
+		}
+	}
+	return -1
+}
